@@ -158,7 +158,7 @@ def format (x : Dec) (fl : FmtFlags) (verb : Char) : List Char :=
     let padding : Nat := match fl.width with
       | some w => if w > sign.length + buf.length then w - sign.length - buf.length else 0
       | none => 0
-    if fl.zero && x.form != .inf then sign ++ repeatChar '0' padding ++ buf
+    if fl.zero && !fl.minus && x.form != .inf then sign ++ repeatChar '0' padding ++ buf
     else if fl.minus then sign ++ buf ++ repeatChar ' ' padding
     else repeatChar ' ' padding ++ sign ++ buf
 
